@@ -30,6 +30,14 @@ _CTORS = {"RandomState", "default_rng", "Generator", "SeedSequence", "MT19937", 
 _TORCH = re.compile(r"^torch\.(rand\w*|manual_seed|seed|normal|bernoulli|multinomial|poisson|initial_seed|"
                     r"get_rng_state|set_rng_state|random\.\w+|Generator)$")
 TEMP_SEED_SHAPE = ["get_state", "seed", "try", "yield", "finally", "set_state"]
+# methods that draw from (or seed) whatever generator object they are called on
+DRAW_METHODS = {"randint", "uniform", "choice", "rand", "randn", "normal", "random", "random_sample", "shuffle",
+                "permutation", "integers", "standard_normal", "sample", "seed", "bytes", "randrange", "getrandbits",
+                "random_integers", "ranf", "gauss", "betavariate", "triangular", "binomial", "exponential", "set_state"}
+# in-place random fills of a torch tensor: they read the global torch generator
+TORCH_INPLACE = {"uniform_", "normal_", "random_", "bernoulli_", "exponential_", "geometric_", "cauchy_", "log_normal_"}
+CACHE_DECORATORS = ("lru_cache", "cache", "cached_property", "memoize", "memoized", "cachedmethod", "cached")
+_BUILTINS = set(dir(__import__("builtins")))
 
 
 def _chain(func: ast.AST) -> str | None:
@@ -58,6 +66,27 @@ class TableBuilder:
         self.kernel_calls: list[dict] = []
         self.gens: list[dict] = []
         self.self_writes: list[dict] = []     # `self.<attr> = …` / in-place mutation of instance state inside mask_func + helpers
+        # closed-world bookkeeping (phase 3)
+        self.imports: dict[str, str] = {}     # local alias -> dotted module / object path
+        self._mod_names: set[str] = set()     # names bound at module level (variables, functions, classes)
+        for st in tree.body:
+            if isinstance(st, ast.Import):
+                for a in st.names:
+                    self.imports[(a.asname or a.name).split(".")[0]] = a.name if a.asname else a.name.split(".")[0]
+            elif isinstance(st, ast.ImportFrom) and st.module:
+                for a in st.names:
+                    self.imports[a.asname or a.name] = f"{st.module}.{a.name}"
+            elif isinstance(st, (ast.Assign, ast.AnnAssign, ast.AugAssign)):
+                tg = st.targets if isinstance(st, ast.Assign) else [st.target]
+                for t in tg:
+                    for n in ast.walk(t):
+                        if isinstance(n, ast.Name):
+                            self._mod_names.add(n.id)
+            elif isinstance(st, (ast.FunctionDef, ast.ClassDef)):
+                self._mod_names.add(st.name)
+        self.reach: dict[str, str] = {}       # every callable reached from some mask_func -> how it was handled
+        self.unresolved: list[dict] = []      # calls the walk could not follow nor classify
+        self._ext_seen: set = set()
 
     # -- class hierarchy ---------------------------------------------------------------------
     def resolve(self, cls: str, name: str):
@@ -123,7 +152,37 @@ class TableBuilder:
                 fresh.add(n.targets[0].id)
         ctx = {"qual": qual, "cls": cls, "fresh": fresh, "params": {a.arg for a in fn.args.args},
                "param_prov": param_prov, "top": lead is None}
+        self._fn_facts(fn, ctx)
+        self.reach.setdefault(qual, "walked")
         self.walk_body(fn.body, ctx, scopes={"self.rng"} if in_priv_scope else set(), lead=lead)
+
+    def _fn_facts(self, fn, ctx):
+        """locals, nested functions, mutable defaults and memoising decorators of a function about to be walked"""
+        a = fn.args
+        allp = a.posonlyargs + a.args + a.kwonlyargs + ([a.vararg] if a.vararg else []) + ([a.kwarg] if a.kwarg else [])
+        ctx["params"] = ctx.get("params", set()) | {x.arg for x in allp}
+        local, nested = set(), {}
+        for n in ast.walk(fn):
+            if isinstance(n, ast.Name) and isinstance(n.ctx, ast.Store):
+                local.add(n.id)
+            elif isinstance(n, (ast.FunctionDef, ast.AsyncFunctionDef)) and n is not fn:
+                nested.setdefault(n.name, n)
+                local.add(n.name)
+        glob = {x for n in ast.walk(fn) if isinstance(n, (ast.Global, ast.Nonlocal)) for x in n.names}
+        ctx["locals"] = (local | ctx["params"]) - glob
+        ctx["nested"] = nested
+        defaults = list(zip(reversed(a.posonlyargs + a.args), reversed(a.defaults))) + \
+            [(k, d) for k, d in zip(a.kwonlyargs, a.kw_defaults) if d is not None]
+        ctx["mutable_defaults"] = {k.arg for k, d in defaults if isinstance(d, (ast.List, ast.Dict, ast.Set))
+                                   or (isinstance(d, ast.Call) and _chain(d.func) in ("dict", "list", "set", "defaultdict",
+                                                                                       "collections.defaultdict"))}
+        for d in fn.decorator_list:
+            txt = ast.unparse(d)
+            if any(c in txt.replace("functools.", "").split("(")[0].split(".")[-1:] for c in CACHE_DECORATORS):
+                rec = {"gen": self._gen["name"], "func": ctx["qual"], "lineno": d.lineno,
+                       "text": ("memoising decorator @" + txt)[:50].replace('"', "'")}
+                if rec not in self.self_writes:
+                    self.self_writes.append(rec)
 
     _MUTATORS = {"append", "update", "setdefault", "pop", "clear", "add", "extend", "insert", "remove", "popitem",
                  "__setitem__", "discard", "sort", "reverse", "fill"}
@@ -132,6 +191,14 @@ class TableBuilder:
         """instance state written by this (simple) statement: the model's body is a function of its arguments and of
         the drawn values only, so any per-instance memory (memo, cache, counter) must be visible here"""
         found = []
+        locs = ctx.get("locals", set())
+        muts = ctx.get("mutable_defaults", set())
+
+        def shared(name: str) -> bool:
+            """a name that outlives the call: module-level object (not shadowed by a local), `cls`, a mutable default"""
+            return (name in self._mod_names and name not in locs) or name == "cls" or name in muts \
+                or (name in self.imports and name not in locs)
+
         for n in ast.walk(st):
             if isinstance(n, (ast.Attribute, ast.Subscript)) and isinstance(getattr(n, "ctx", None), (ast.Store, ast.Del)):
                 b = n
@@ -139,15 +206,27 @@ class TableBuilder:
                     b = b.value
                 if isinstance(b, ast.Name) and b.id == "self":
                     found.append((n.lineno, ast.unparse(n)[:50]))
+                elif isinstance(b, ast.Name) and shared(b.id):
+                    found.append((n.lineno, ("shared state: " + ast.unparse(n))[:50]))
+                elif isinstance(b, ast.Call) and ast.unparse(b).replace(" ", "") in ("type(self)", "super()"):
+                    found.append((n.lineno, ("class state: " + ast.unparse(n))[:50]))
+            if isinstance(n, (ast.Global, ast.Nonlocal)):
+                found.append((n.lineno, ("global/nonlocal " + ", ".join(n.names))[:50]))
             if isinstance(n, ast.Call):
                 ch = _chain(n.func)
-                if ch in ("setattr", "object.__setattr__") and n.args and ast.unparse(n.args[0]) == "self":
+                if ch in ("setattr", "object.__setattr__") and n.args and ast.unparse(n.args[0]) in ("self", "type(self)",
+                                                                                                      "self.__class__", "cls"):
                     found.append((n.lineno, ast.unparse(n)[:50]))
-                if ch and ch.startswith("self.") and len(ch.split(".")) == 3 and ch.split(".")[1] != "rng" \
-                        and ch.split(".")[2] in self._MUTATORS:
+                if ch and ch.startswith("self.") and len(ch.split(".")) >= 3 and ch.split(".")[1] != "rng" \
+                        and ch.split(".")[-1] in self._MUTATORS:
                     found.append((n.lineno, ast.unparse(n)[:50]))
                 if ch and ch.startswith("self.__dict__"):
                     found.append((n.lineno, ast.unparse(n)[:50]))
+                if ch and len(ch.split(".")) >= 2 and ch.split(".")[-1] in self._MUTATORS and shared(ch.split(".")[0]):
+                    found.append((n.lineno, ("shared state: " + ast.unparse(n))[:50]))
+                if ch is None and isinstance(n.func, ast.Attribute) and n.func.attr in self._MUTATORS \
+                        and ast.unparse(n.func.value).replace(" ", "").startswith(("type(self)", "self.__class__")):
+                    found.append((n.lineno, ("class state: " + ast.unparse(n))[:50]))
         for ln, txt in found:
             rec = {"gen": self._gen["name"], "func": ctx["qual"], "lineno": ln, "text": txt.replace('"', "'")}
             if rec not in self.self_writes:
@@ -230,6 +309,11 @@ class TableBuilder:
                 continue
             chain = _chain(n.func)
             if chain is None:
+                if isinstance(n.func, ast.Attribute):
+                    if not (isinstance(n.func.value, ast.Call) and _chain(n.func.value.func) == "super"):
+                        self._value_method(n, ctx, scopes, lead, n.func.attr)
+                else:
+                    self._note_unresolved(ctx, n, "computed callee")
                 continue
             parts = chain.split(".")
             src = self.classify(chain, ctx)
@@ -273,7 +357,11 @@ class TableBuilder:
                 owner, callee = self.resolve(ctx["cls"], parts[1])
             elif len(parts) == 2 and parts[0] in self.classes:
                 owner, callee = self.resolve(parts[0], parts[1])
-            elif len(parts) == 1 and parts[0] in self.funcs and parts[0] != "temp_seed":
+            elif len(parts) == 1 and parts[0] in ctx.get("nested", {}):
+                self._walk_nested(ctx["nested"][parts[0]], n, ctx, scopes, lead)
+                continue
+            elif len(parts) == 1 and parts[0] in self.funcs and parts[0] != "temp_seed" \
+                    and parts[0] not in ctx.get("locals", set()):
                 callee = self.funcs[parts[0]]
             if callee is not None:
                 names = [a.arg for a in callee.args.args if a.arg != "self"]
@@ -287,6 +375,140 @@ class TableBuilder:
                     if d is not None and kw.arg:
                         prov[kw.arg] = d
                 self.walk_fn(callee, owner, ctx["cls"], "self.rng" in scopes, prov, bool(lead))
+                continue
+            self._classify_other_call(n, chain, parts, ctx, scopes, lead)
+
+    # -- closed world: everything that is neither a draw, a kernel, nor a function of this module -------------------
+    def _note_unresolved(self, ctx, n, why):
+        rec = {"func": ctx["qual"], "lineno": n.lineno, "text": (why + ": " + ast.unparse(n.func))[:70].replace('"', "'")}
+        if rec not in self.unresolved:
+            self.unresolved.append(rec)
+
+    def _walk_nested(self, fn, call, ctx, scopes, lead):
+        """a function defined inside the function being walked, called here: its body runs under the call's scopes"""
+        qual = ctx["qual"] + "." + fn.name
+        key = (qual, tuple(sorted(scopes)), bool(lead))
+        if key in self._visited:
+            return
+        self._visited.add(key)
+        sub = dict(ctx, qual=qual, top=False)
+        self._fn_facts(fn, sub)
+        sub["locals"] = sub["locals"] | ctx.get("locals", set())
+        sub["nested"] = dict(ctx.get("nested", {}), **sub["nested"])
+        self.reach.setdefault(qual, "walked (nested)")
+        self.walk_body(fn.body, sub, set(scopes), bool(lead))
+
+    def _value_method(self, n, ctx, scopes, lead, attr):
+        """`<some value>.<attr>(…)`: a method of a local object.  Random-number methods are sites of an unknown stream"""
+        if attr in DRAW_METHODS or attr in TORCH_INPLACE:
+            src = "torchGlobal" if attr in TORCH_INPLACE else "unknown"
+            idx = self.site(ctx["qual"], n, attr, src, False, "seed" if attr in ("seed", "set_state") else "draw")
+            if idx not in self._gen["sites"]:
+                self._gen["sites"].append(idx)
+
+    def _classify_other_call(self, n, chain, parts, ctx, scopes, lead):
+        root = parts[0]
+        locs = ctx.get("locals", set())
+        if root == "self":
+            if len(parts) == 2:
+                self._note_unresolved(ctx, n, "method not found in the class hierarchy")
+            else:
+                self._value_method(n, ctx, scopes, lead, parts[-1])       # self.<attr>.<method>(…)
+            return
+        if root in locs and root not in ("np", "torch"):
+            if len(parts) == 1:
+                self._note_unresolved(ctx, n, "call through a local variable")
+            else:
+                self._value_method(n, ctx, scopes, lead, parts[-1])
+            return
+        if root in self.imports:
+            full = ".".join([self.imports[root]] + parts[1:])
+            if full.startswith("direct."):
+                self._walk_external(full, n, ctx, scopes, lead)
+            else:
+                self.reach.setdefault(full, "external library (not a random-number entry point by name)")
+            return
+        if root in self.classes or root in self.funcs:       # constructors, `temp_seed`
+            self.reach.setdefault(chain, "constructor / context manager of this module")
+            return
+        if root in _BUILTINS:
+            if root in ("getattr", "eval", "exec", "__import__", "globals", "vars") and isinstance(n.func, ast.Name):
+                if root != "getattr":
+                    self._note_unresolved(ctx, n, "dynamic code")
+            return
+        if len(parts) >= 2:
+            self._value_method(n, ctx, scopes, lead, parts[-1])
+            return
+        self._note_unresolved(ctx, n, "unknown callable")
+
+    def _walk_external(self, full, n, ctx, scopes, lead, depth=0):
+        """a function of another `direct.*` module (e.g. `T.center_crop`): scan it, and what it calls there, for draws"""
+        mod, _, fname = full.rpartition(".")
+        key = (full, tuple(sorted(scopes)))
+        if key in self._ext_seen:
+            return
+        self._ext_seen.add(key)
+        path = REPO / (mod.replace(".", "/") + ".py")
+        if not path.exists():
+            path = REPO / mod.replace(".", "/") / "__init__.py"
+        try:
+            tree = _parse_cached(path)
+        except (OSError, SyntaxError, Untranslatable):
+            self.reach.setdefault(full, "direct.* object whose module could not be read")
+            return
+        fn = next((f for f in tree.body if isinstance(f, ast.FunctionDef) and f.name == fname), None)
+        if fn is None:
+            self.reach.setdefault(full, "direct.* non-function (class / constant)")
+            return
+        self.reach.setdefault(full, "walked (other module)")
+        other = _module_tb(path, tree)
+        fresh = {t.targets[0].id for t in ast.walk(fn) if isinstance(t, ast.Assign) and len(t.targets) == 1
+                 and isinstance(t.targets[0], ast.Name) and isinstance(t.value, ast.Call) and _is_ctor(_chain(t.value.func) or "")}
+        for c in ast.walk(fn):
+            if not isinstance(c, ast.Call):
+                continue
+            ch = _chain(c.func)
+            if ch is None:
+                if isinstance(c.func, ast.Attribute) and (c.func.attr in DRAW_METHODS or c.func.attr in TORCH_INPLACE) \
+                        and c.func.attr not in ("sample", "seed", "random", "normal", "bytes"):
+                    self._ext_site(full, c, c.func.attr, "unknown")
+                continue
+            src = other.classify(ch, {"fresh": fresh})
+            if src is not None:
+                if ch.split(".")[-1] in ("get_state", "get_rng_state", "initial_seed"):
+                    continue
+                self._ext_site(full, c, ch.split(".")[-1], src)
+                continue
+            ps = ch.split(".")
+            if len(ps) == 1 and ps[0] in other.funcs and depth < 4:
+                self._walk_external(f"{mod}.{ps[0]}", c, ctx, scopes, lead, depth + 1)
+            elif ps[0] in other.imports and depth < 4:
+                f2 = ".".join([other.imports[ps[0]]] + ps[1:])
+                if f2.startswith("direct."):
+                    self._walk_external(f2, c, ctx, scopes, lead, depth + 1)
+
+    def _ext_site(self, full, node, method, src):
+        idx = self.site(full, node, method, src, False, "draw")
+        if idx not in self._gen["sites"]:
+            self._gen["sites"].append(idx)
+
+
+_PARSED: dict = {}
+_TBS: dict = {}
+
+
+def _parse_cached(path):
+    k = str(path)
+    if k not in _PARSED:
+        _PARSED[k] = parse_file(path)
+    return _PARSED[k]
+
+
+def _module_tb(path, tree):
+    k = str(path)
+    if k not in _TBS:
+        _TBS[k] = TableBuilder(tree)
+    return _TBS[k]
 
 
 def temp_seed_shape(tree: ast.Module) -> list[str]:
@@ -324,14 +546,86 @@ def temp_seed_shape(tree: ast.Module) -> list[str]:
     return out
 
 
+_LIBC_SEEDERS = ("srand", "srandom", "srand48", "seed48", "initstate", "setstate")
+_LIBC_DRAWS = ("rand", "random", "drand48", "lrand48", "mrand48", "rand_r", "erand48", "nrand48", "jrand48")
+
+
+def _pyx_blocks(src: str):
+    """(kind, name, signature, body) of every top-level `def` / `cdef` function of a .pyx file, comments and
+    docstrings removed"""
+    src = re.sub(r'"""".*?"""', "", src, flags=re.S)
+    src = re.sub(r'""".*?"""', "", src, flags=re.S)
+    src = "\n".join(ln.split("#", 1)[0] for ln in src.split("\n"))
+    pat = re.compile(r"^(def|cdef|cpdef)\s+(?:inline\s+)?(?:[\w\[\], .=\'*]+?\s+)?(\w+)\s*\((.*?)\)[^:\n]*:\s*$(.*?)(?=^\S|\Z)",
+                     re.S | re.M)
+    for m in pat.finditer(src):
+        yield m.group(1), m.group(2), m.group(3), m.group(4)
+
+
+def pyx_events(src: str) -> dict[str, list[str]]:
+    """per public kernel the libc events of its body in textual order with cdef helpers expanded:
+    `srand:seed` = `srand(seed)` at the top level of the body (not under a condition / loop) on the unmodified int
+    parameter `seed`; `srand:other` = any other seeding of the C generator; `rand` = a `rand()` or a helper that draws"""
+    blocks = list(_pyx_blocks(src))
+    helpers = {name: body for kind, name, _, body in blocks if kind != "def"}
+    call = lambda names: re.compile(r"(?<![\w.])(" + "|".join(map(re.escape, names)) + r")\s*\(")  # noqa: E731
+
+    def draws(body, seen=()):
+        if call(_LIBC_DRAWS).search(body):
+            return True
+        return any(h not in seen and call([h]).search(body) and draws(helpers[h], seen + (h,)) for h in helpers)
+
+    def seeds(body, seen=()):
+        if call(_LIBC_SEEDERS).search(body):
+            return True
+        return any(h not in seen and call([h]).search(body) and seeds(helpers[h], seen + (h,)) for h in helpers)
+
+    drawing = [h for h in helpers if draws(helpers[h])]
+    seeding = [h for h in helpers if seeds(helpers[h])]
+    out = {}
+    for kind, name, sig, body in blocks:
+        if kind != "def":
+            continue
+        lines = body.split("\n")
+        indents = [len(ln) - len(ln.lstrip()) for ln in lines if ln.strip()]
+        top = min(indents) if indents else 0
+        evs = []
+        seed_param = bool(re.search(r"\bint\s+seed\b", sig))
+        seed_touched = False
+        for ln in lines:
+            if not ln.strip():
+                continue
+            ind = len(ln) - len(ln.lstrip())
+            for m in re.finditer(r"(?<![\w.])(\w+)\s*\(([^()]*)", ln):
+                f, arg = m.group(1), m.group(2).strip()
+                if f in _LIBC_SEEDERS or f in seeding:
+                    good = (f == "srand" and arg == "seed" and seed_param and not seed_touched and ind == top)
+                    evs.append("srand:seed" if good else "srand:other")
+                elif f in _LIBC_DRAWS or f in drawing:
+                    evs.append("rand")
+            if re.search(r"(?<![\w.])seed\s*([-+*/%|&^]|//|<<|>>)?=(?!=)", ln):
+                seed_touched = True
+        # keep the table small: runs of `rand` are one event
+        comp = []
+        for e in evs:
+            if not (comp and comp[-1] == "rand" and e == "rand"):
+                comp.append(e)
+        out[name] = comp
+    return out
+
+
 def pyx_kernels() -> list[dict]:
     out = []
     for rel in PYX:
         try:
             src = (REPO / rel).read_text()
         except OSError:
-            out.append({"file": rel, "name": "?", "ok": False})
+            out.append({"file": rel, "name": "?", "ok": False, "events": []})
             continue
+        try:
+            events = pyx_events(src)
+        except Exception:  # noqa: BLE001 - an unreadable kernel is an inadmissible kernel
+            events = {}
         # public kernels: top-level `def name(` blocks
         for m in re.finditer(r"^def\s+(\w+)\s*\((.*?)\)\s*:\s*$(.*?)(?=^def\s|^cdef\s|\Z)", src, re.S | re.M):
             name, sig, body = m.group(1), m.group(2), m.group(3)
@@ -343,8 +637,95 @@ def pyx_kernels() -> list[dict]:
                       and first_srand.group(1) == "seed"
                       and (first_rand is None or first_srand.start() < first_rand.start())
                       and len(re.findall(r"\bsrand\s*\(", body)) == 1)
-            out.append({"file": rel, "name": name, "ok": ok})
+            out.append({"file": rel, "name": name, "ok": ok, "events": events.get(name, ["unreadable"])})
     return out
+
+
+def other_libc_users() -> list[str]:
+    """report only: every other .pyx / .py of the package that touches the C generator (it is process global)"""
+    out = []
+    for path in sorted((REPO / "direct").rglob("*.pyx")):
+        rel = str(path.relative_to(REPO))
+        if rel in PYX:
+            continue
+        try:
+            ev = pyx_events(path.read_text())
+        except Exception as e:  # noqa: BLE001
+            out.append(f"{rel}: unreadable ({type(e).__name__})")
+            continue
+        for k, v in ev.items():
+            if v:
+                out.append(f"{rel}:{k} {v}")
+    return out
+
+
+# --------------------------------------------------------------------------------------------------
+# consumers of the generators outside subsample.py
+FILENAME_SEED = "Noneifnotself.use_seedelsetuple(map(ord,str(sample['filename'])))"
+EXPECTED_CONSUMERS = ["direct/data/mri_transforms.py:CreateSamplingMask.__call__", "direct/data/mri_transforms.py:CreateSamplingMask.__call__",
+                      "direct/data/mri_transforms.py:EstimateBodyCoilImage.__call__", "direct/data/transforms.py:apply_mask"]
+
+
+def consumers() -> list[dict]:
+    """every call `<…>mask_func(…)` in direct/**/*.py outside subsample.py with the class of its seed argument:
+    0 the file-name tuple guarded by use_seed, 1 a parameter of the enclosing function passed through unchanged,
+    2 no seed handed over (an unseeded call), 3 anything else"""
+    norm = lambda n: ast.unparse(n).replace(" ", "").replace('"', "'")  # noqa: E731
+    rows = []
+    for path in sorted((REPO / "direct").rglob("*.py")):
+        rel = str(path.relative_to(REPO))
+        if rel == SUB:
+            continue
+        try:
+            txt = path.read_text()
+            if "mask_func" not in txt:
+                continue
+            tree = _parse_cached(path)
+        except (OSError, SyntaxError, UnicodeDecodeError, Untranslatable):
+            rows.append({"site": rel + ":?", "cls": 3, "lineno": 0})
+            continue
+
+        def visit(node, qual, fn):
+            for ch in ast.iter_child_nodes(node):
+                if isinstance(ch, ast.ClassDef):
+                    visit(ch, (qual + "." if qual else "") + ch.name, fn)
+                elif isinstance(ch, (ast.FunctionDef, ast.AsyncFunctionDef)):
+                    visit(ch, (qual + "." if qual else "") + ch.name, ch)
+                else:
+                    if isinstance(ch, ast.Call) and fn is not None:
+                        c = _chain(ch.func)
+                        if c and c.split(".")[-1] == "mask_func":
+                            rows.append({"site": f"{rel}:{qual}", "cls": seed_class(ch, fn), "lineno": ch.lineno})
+                    visit(ch, qual, fn)
+
+        def seed_class(call, fn):
+            kw = {k.arg: k.value for k in call.keywords}
+            sv = kw.get("seed")
+            if sv is None and len(call.args) >= 3:
+                sv = call.args[2]
+            if sv is None:
+                return 3 if any(k.arg is None for k in call.keywords) or any(isinstance(a, ast.Starred) for a in call.args) else 2
+            if not isinstance(sv, ast.Name):
+                return 2 if norm(sv) == "None" else 3
+            assigns = [st for st in ast.walk(fn) if isinstance(st, (ast.Assign, ast.AugAssign, ast.AnnAssign))
+                       and any(isinstance(t, ast.Name) and t.id == sv.id for t in ast.walk(
+                           st.targets[0] if isinstance(st, ast.Assign) and len(st.targets) == 1 else
+                           ast.Tuple(elts=list(st.targets), ctx=ast.Store()) if isinstance(st, ast.Assign) else st.target))]
+            others = [n for n in ast.walk(fn) if isinstance(n, (ast.For, ast.comprehension, ast.NamedExpr, ast.withitem))
+                      and sv.id in {x.id for x in ast.walk(getattr(n, "target", None) or getattr(n, "optional_vars", None)
+                                                            or ast.Tuple(elts=[], ctx=ast.Store())) if isinstance(x, ast.Name)}]
+            params = {a.arg for a in fn.args.posonlyargs + fn.args.args + fn.args.kwonlyargs}
+            if others:
+                return 3
+            if not assigns and sv.id in params:
+                return 1
+            if len(assigns) == 1 and isinstance(assigns[0], ast.Assign) and sv.id not in params \
+                    and norm(assigns[0].value) == FILENAME_SEED and assigns[0].lineno < call.lineno:
+                return 0
+            return 3
+
+        visit(tree, "", None)
+    return rows
 
 
 MRI_T = "direct/data/mri_transforms.py"
@@ -392,6 +773,23 @@ def plumbing() -> list[tuple[str, bool]]:
     return rows
 
 
+def temp_seed_copies() -> list[str]:
+    """report only: the other definitions of `temp_seed` in the package (datasets, ssl) and their skeletons"""
+    out = []
+    for path in sorted((REPO / "direct").rglob("*.py")):
+        rel = str(path.relative_to(REPO))
+        if rel == SUB:
+            continue
+        try:
+            txt = path.read_text()
+            if "def temp_seed" not in txt:
+                continue
+            out.append(f"{rel}: {temp_seed_shape(_parse_cached(path))}")
+        except (OSError, SyntaxError, UnicodeDecodeError, Untranslatable):
+            out.append(f"{rel}: unreadable")
+    return out
+
+
 def calgary_report() -> dict:
     """CalgaryCampinasMaskFunc is outside the property's 14 generators: its sites are reported, not judged"""
     try:
@@ -400,7 +798,8 @@ def calgary_report() -> dict:
         g = tb.gens[0]
         return {"scope_ok": g["scope_ok"], "sites": [dict(func=s["func"], lineno=s["lineno"], src=s["src"], in_scope=s["in_scope"])
                                                      for s in tb.sites], "all_ok": g["scope_ok"] and all(
-            s["in_scope"] and s["src"] in ("priv", "fresh") for s in tb.sites)}
+            s["in_scope"] and s["src"] in ("priv", "fresh") for s in tb.sites),
+                "state_writes": tb.self_writes, "unresolved": tb.unresolved}
     except Exception as e:  # noqa: BLE001
         return {"error": repr(e)}
 
@@ -418,7 +817,9 @@ def rng_table() -> dict:
             tb.generator(g)
         _CACHE[key] = {"sites": tb.sites, "gens": tb.gens, "kernel_calls": tb.kernel_calls, "pyx": pyx_kernels(),
                        "temp_seed_shape": temp_seed_shape(tree), "plumbing": plumbing(), "calgary": calgary_report(),
-                       "self_writes": tb.self_writes}
+                       "self_writes": tb.self_writes, "unresolved": tb.unresolved, "reach": dict(tb.reach),
+                       "consumers": consumers(), "other_libc": other_libc_users(),
+                       "temp_seed_copies": temp_seed_copies()}
     return _CACHE[key]
 
 
@@ -449,7 +850,33 @@ def _lean_text(t: dict) -> str:
     L.append("]\n")
     L.append("/-- .pyx kernels: `srand(seed)` on the int parameter `seed`, once, before any `rand()` -/")
     L.append("def pyxKernels : List (String × Bool) := [" + ", ".join(f"(\"{k['name']}\", {_b(k['ok'])})" for k in t["pyx"]) + "]\n")
-    L.append("/-- instance state written inside `mask_func` or a helper it calls: (generator, where, what) — must be empty -/")
+    L.append("/-- libc events of every `.pyx` kernel body (cdef helpers expanded; runs of `rand` are one event) -/")
+    L.append("def pyxEvents : List (String × List String) := [" + ", ".join(
+        "(\"%s\", [%s])" % (k["name"], ", ".join(f'"{e}"' for e in k.get("events", []))) for k in t["pyx"]) + "]\n")
+    L.append("/-- calls reachable from a `mask_func` that the walk could neither follow nor classify: (where, what) — must be empty -/")
+    L.append("def unresolved : List (String × String) := [")
+    un = t.get("unresolved", [])
+    for i, u in enumerate(un):
+        sep = "," if i + 1 < len(un) else ""
+        L.append(f'  ("{u["func"]}:{u["lineno"]}", "{u["text"]}"){sep}')
+    L.append("]\n")
+    L.append("/-- every callable reached from a `mask_func` and how the walk handled it (documentation of the closed world) -/")
+    L.append("def reachable : List (String × String) := [")
+    rc = sorted(t.get("reach", {}).items())
+    for i, (k, v) in enumerate(rc):
+        sep = "," if i + 1 < len(rc) else ""
+        L.append(f'  ("{k}", "{v}"){sep}')
+    L.append("]\n")
+    L.append("/-- calls of a generator outside subsample.py: (site, class of the seed argument: 0 file-name tuple under use_seed,\n"
+             "1 own parameter passed through, 2 no seed, 3 anything else) -/")
+    L.append("def consumers : List (String × Nat) := [")
+    cs = t.get("consumers", [])
+    for i, c in enumerate(cs):
+        sep = "," if i + 1 < len(cs) else ""
+        L.append(f'  ("{c["site"]}", {c["cls"]}){sep}  -- line {c["lineno"]}')
+    L.append("]\n")
+    L.append("/-- instance / class / module / closure state written inside `mask_func` or a helper it calls, and memoising\n"
+             "decorators on them: (generator, where, what) — must be empty -/")
     L.append("def selfWrites : List (String × String × String) := [")
     sw = t.get("self_writes", [])
     for i, w in enumerate(sw):
@@ -464,7 +891,9 @@ def _lean_text(t: dict) -> str:
         L.append(f'  ("{q}", {_b(ok)}){sep}')
     L.append("]\n")
     cg = t.get("calgary", {})
-    L.append(f"-- report only (outside the 14 generators): CalgaryCampinasMaskFunc sites = {cg}\n")
+    L.append(f"-- report only (outside the 14 generators): CalgaryCampinasMaskFunc sites = {cg}")
+    L.append(f"-- report only: other users of the C generator in the package = {t.get('other_libc', [])}")
+    L.append(f"-- report only: other definitions of temp_seed = {t.get('temp_seed_copies', [])}\n")
     L.append("/-- statement skeleton of `temp_seed` -/")
     L.append("def tempSeedShape : List String := [" + ", ".join(f"\"{x}\"" for x in t["temp_seed_shape"]) + "]\n")
     return "\n".join(L)
@@ -483,12 +912,20 @@ def _extra():
                 "def plumbing : List (String × Bool) := []\n"
                 "def selfWrites : List (String × String × String) := []\n"
                 "def pyxKernels : List (String × Bool) := []\n"
+                "def pyxEvents : List (String × List String) := [(\"skipped\", [\"srand:seed\", \"rand\"])]\n"
+                "def unresolved : List (String × String) := []\n"
+                "def reachable : List (String × String) := []\n"
+                "def consumers : List (String × Nat) := [(\"skipped\", 0)]\n"
                 "def tempSeedShape : List String := [" + ", ".join(f"\"{x}\"" for x in TEMP_SEED_SHAPE) + "]\n")
         return text, {"rng_access_table": f"skipped: {e}"}
     cg = t.get("calgary", {})
     return _lean_text(t), {"rng_access_table": "translated", "temp_seed_shape": "translated",
                            "kernel_seed_provenance": "translated", "pyx_srand_order": "translated",
                            "seed_plumbing": "translated", "instance_state_writes": "translated",
+                           "pyx_libc_events": "translated", "closed_world_reachability": "translated",
+                           "generator_consumers": "translated",
+                           "other_libc_users(report only)": "; ".join(t.get("other_libc", [])) or "none",
+                           "temp_seed_copies(report only)": "; ".join(t.get("temp_seed_copies", [])) or "none",
                            "calgary_campinas(report only)": "all draws on self.rng inside temp_seed(self.rng, seed)"
                            if cg.get("all_ok") else f"NOT admissible: {cg}"}
 
